@@ -1336,6 +1336,11 @@ class LogixDriver(CIPDriver):
 
             tag_info = self._get_tag_info(base, attrs)
 
+            if bit is not None and tag_info["data_type"] != "DWORD":
+                _size = getattr(DataTypes.get(tag_info["data_type_name"]), "size", None)
+                if _size and bit >= _size * 8:
+                    raise RequestError(f'Bit {bit} out of range for {tag_info["data_type_name"]} tag {tag}')
+
             if tag_info["data_type"] == "DWORD":
                 _tag, idx = util.get_array_index(tag)
                 if idx is not None:
